@@ -317,4 +317,11 @@ Definition CableLabsData (e : t) : bytes * t :=
 
 Definition Data (f : flavour) (e : t) : bytes * t :=
   match f with Comcast => ComcastData e | CableLabs => CableLabsData e end.
+(* nested module: `Import Ebp` does not bring these names into scope *)
+Module Consts.
+(* ---- exported constants of ebp/ebp.go, in source order (coverage: notes/coverage.md) ---- *)
+Definition exported_consts : list N :=
+  [ComcastEbpTag; CableLabsEbpTag; CableLabsFormatIdentifier; InvalidStreamSyncSignal; StreamNotSynchronized; StreamSynchronized].
+End Consts.
+
 End Ebp.
